@@ -268,6 +268,35 @@ def clause_reorg_order(R, F):
              "WIRE|D::reorg|max-source", "depth check does not read the recorded maximum (db_global_values[MAX_BLOCK_NUMBER_KEY]): %s" % show(t)[:200])
 
 
+def clause_reorg_height_last(R, F):
+    """crash safety of D::reorg itself: every versioned (state) table is rolled back before the table the reopened
+    height is derived from; otherwise a crash in between reopens at N with state still above N, and engine.reorg(N)
+    returns early (N == current) and cannot clean up"""
+    fn = db_fn(F, "reorg")
+    glh = db_fn(F, "get_latest_block_height")
+    src = set()
+    for c in glh.calls():
+        if (c.method or "") == "last_key" and c.args:
+            src |= set(self_fields(origin(glh, c.args[0])))
+    if len(src) != 1:
+        R.violation("WIRE", glh.where(), "WIRE|get_latest_block_height|source", "height source table not unique: %s" % sorted(src))
+        return
+    src = list(src)[0]
+    reorgs = calls_on_field(fn, {"reorg"})
+    hs = reorgs.get(src, [])
+    R.ob(bool(hs), "DOM-order", fn.where(), "DOM-order|D::reorg|%s" % src, "the height table %s is not rolled back" % src)
+    tf = roles.table_fields(F)
+    for (field, ttype, _) in tf:
+        if not ttype.endswith("BlockCachedDatabase"):
+            continue
+        for c in reorgs.get(field, []):
+            for h in hs:
+                R.ob(fn.dominates(c.bb, h.bb) and c.bb != h.bb, "DOM-order", h.where(), "DOM-order|D::reorg|%s<%s" % (field, src),
+                     "the height table %s is rolled back before state table %s: a crash in between reopens at the target height with "
+                     "state of orphaned blocks still present, and a reorg to that height is then a no-op" % (src, field),
+                     sample={"rule": "DOM-order", "fn": "D::reorg", "first": field, "then": src})
+
+
 def _role_dreorg(a):
     if a[0] == "param" and a[1] == 2:
         return "N"
